@@ -586,19 +586,44 @@ func c13SchedBody(t *testing.T, steps int) mc.Body {
 			condActive := make([]bool, len(cs))
 			ruleActive := false
 			lastTick := time.Time{}
+			tickBase := start
 			x.Logf("schedule %s-%s weekdays %v (companion: number condition %v, second schedule %v weekdays %v), clock starts %s", w.s, w.e, wd1, withNumber, comp >= 2, wd2, start.UTC().Format(time.RFC3339))
 			for s := 0; s < steps; s++ {
-				op := x.Choose(len(advances)+2, "op")
+				op := x.Choose(len(advances)+4, "op")
 				g.pubs = nil
 				newCond := append([]bool{}, condActive...)
 				var exp []c13Pub
-				if op < len(advances) {
+				flagsOnly := false
+				if op >= len(advances)+2 {
+					// the weekday list of the (first) schedule condition is edited while the rule runs — what the client
+					// manager does with points written to the condition node; the rule then evaluates a trigger of its own
+					nw := [][]time.Weekday{{time.Sunday}, {time.Saturday}}[op-len(advances)-2]
+					var pts []data.Point
+					for d := 0; d < 7; d++ {
+						v := 0.0
+						if time.Weekday(d) == nw[0] {
+							v = 1
+						}
+						pts = append(pts, data.Point{Type: data.PointTypeWeekday, Key: fmt.Sprint(d), Value: v, Time: time.Now()})
+					}
+					wd1 = nw
+					tickBase = time.Now() // (the rule client starts a new 10 s ticker whenever its configuration changes)
+					g.rc.Points("cond0", pts)
+					synctest.Wait()
+					x.Logf("weekdays of the schedule condition set to %v at %s", nw, time.Now().UTC().Format("15:04:05"))
+					newCond[0] = c13SchedModel(w.sm, w.em, time.Now(), wd1)
+					if comp >= 2 {
+						newCond[1] = c13SchedModel(w.sm, w.em, time.Now(), wd2) // (the trigger is seen by every schedule condition)
+					}
+					exp = c13Expect(condActive, newCond, &ruleActive)
+					flagsOnly = true
+				} else if op < len(advances) {
 					// the rule evaluates the schedule at every 10 s tick; replay the ticks in the model
 					from := time.Now()
 					time.Sleep(advances[op])
 					synctest.Wait()
 					x.Logf("advance %s -> %s", advances[op], time.Now().UTC().Format("15:04:05"))
-					for tk := start.Add(10 * time.Second); !tk.After(time.Now()); tk = tk.Add(10 * time.Second) {
+					for tk := tickBase.Add(10 * time.Second); !tk.After(time.Now()); tk = tk.Add(10 * time.Second) {
 						if !tk.After(from) {
 							continue
 						}
@@ -622,7 +647,22 @@ func c13SchedBody(t *testing.T, steps int) mc.Body {
 					exp = c13Expect(condActive, newCond, &ruleActive)
 				}
 				x.Step(1)
-				got, want := sortedPubs(g.pubs), sortedPubs(exp)
+				pubs := g.pubs
+				if flagsOnly {
+					// (after a configuration update the rule re-runs the action list of its current state; only the
+					// condition and rule flags are compared for this step, as in the point-condition part)
+					keep := func(ps []c13Pub) []c13Pub {
+						var o []c13Pub
+						for _, q := range ps {
+							if strings.HasPrefix(q.subject, "p.cond") || q.subject == "p.rule1" {
+								o = append(o, q)
+							}
+						}
+						return o
+					}
+					pubs, exp = keep(pubs), keep(exp)
+				}
+				got, want := sortedPubs(pubs), sortedPubs(exp)
 				if strings.Join(got, "\n") != strings.Join(want, "\n") {
 					out = mc.Outcome{Violation: fmt.Sprintf("schedule %s-%s, step %d (last tick %s): rule published %v, reference says %v\nhistory: %v", w.s, w.e, s+1, lastTick.UTC().Format("15:04:05"), got, want, x.History()), Key: "rule-output-differs/schedule"}
 					g.stop()
@@ -665,7 +705,7 @@ func TestC13(t *testing.T) {
 			Rule: "same rule configurations plus the rule without conditions, started with every combination of stored `active` flags of the rule and of each condition (a rule client restarted after its configuration changed: the stored rule flag may disagree with the conditions), three more conditions whose comparison cannot be evaluated (operator unknown or not defined for the value kind: never active), with and without a misconfigured action in front of each action list (set-value without point type, unknown action kind: the well-formed actions behind it must still run) x one single-point batch: after the batch the rule is active exactly when all conditions are, and the action list ran iff the rule's state changed"},
 			c13PointsBody(t, 1, false, true))
 		r.Explore(mc.Config{Name: fmt.Sprintf("schedule-conditions-s%d", steps), Serial: true, SplitDepth: 3,
-			Rule: fmt.Sprintf("6 schedule windows around the (virtual) clock start 2000-01-01T00:00:00Z incl. wrap over midnight and start=end, each with weekdays {every day, Saturday (the start day), Sunday, Friday}, alone / AND a number condition / AND a second schedule condition with its own weekdays {every day, Saturday, Sunday}, process time zone UTC or UTC-5 x all sequences of %d operations over {advance 9 s, 10 s, 25 s, 60 s, 61 s, point 4, point 6}; after every operation the publications are compared with the interval model evaluated at each 10 s tick", steps)},
+			Rule: fmt.Sprintf("6 schedule windows around the (virtual) clock start 2000-01-01T00:00:00Z incl. wrap over midnight and start=end, each with weekdays {every day, Saturday (the start day), Sunday, Friday}, alone / AND a number condition / AND a second schedule condition with its own weekdays {every day, Saturday, Sunday}, process time zone UTC or UTC-5 x all sequences of %d operations (clock advances, points, and the weekday list of the schedule condition edited while the rule runs: Sunday only / Saturday only) over {advance 9 s, 10 s, 25 s, 60 s, 61 s, point 4, point 6}; after every operation the publications are compared with the interval model evaluated at each 10 s tick", steps)},
 			c13SchedBody(t, steps))
 		r.Assume("the rule sees what the store rebroadcasts: up.<parent>.<node> messages (C06); condition key filters compare raw keys, so the alphabet avoids the \"\" / \"0\" aliases")
 		r.Assume("goroutine interleavings inside one synctest step are left to the Go runtime; the rule client is a single select loop")
